@@ -15,7 +15,13 @@ def summary():
     # the sandbox integration target fails before and after; port collisions in cli download tests are flaky
     return [l for l in lines if "integration" not in l and "memory allocation" not in l]
 def run_demo():
+    os.makedirs(os.path.join(WT, dest), exist_ok=True)
     shutil.copy(os.path.join(d, demo), os.path.join(WT, dest, demo))
+    if targs and targs[0] == "--cmd":
+        p = sh(" ".join(targs[1:]) + " 2>&1 | tail -40")
+        os.remove(os.path.join(WT, dest, demo))
+        good = p.stdout.rstrip().endswith("DEMO-EXIT 0")
+        return good, p.stdout[-600:]
     p = sh("cargo test --offline " + " ".join(targs) + " 2>&1 | tail -40")
     os.remove(os.path.join(WT, dest, demo))
     ok = re.search(r"test result: ok", p.stdout) is not None and "FAILED" not in p.stdout and "error" not in p.stdout.lower().split("test result")[0][-0:] 
